@@ -75,3 +75,67 @@ Qed.
 Theorem fix_line_tie_refuted :
   exists offs layout, fix_line offs (recorded_of offs [] layout) = None.
 Proof. exists (fun k => match k with 0%nat => 1 | _ => 3 end), [(0, 2%nat); (2, 0%nat); (5, 2%nat)]. vm_compute. reflexivity. Qed.
+
+(* ---- replace_tokens: the text *)
+Lemma str_eqb_eq a : forall b, str_eqb a b = true -> a = b.
+Proof.
+  induction a as [|x a IH]; intros [|y b] H; cbn in H; try discriminate; [reflexivity|].
+  apply andb_prop in H as [H1 H2]. apply N.eqb_eq in H1. subst y. f_equal. now apply IH.
+Qed.
+
+(* replacing the token by itself gives the source back, whatever the tokens are: nothing between or inside tokens is lost,
+   duplicated or re-spaced, with or without occurrences (before the repair the text was rebuilt from token strings and blanks:
+   tabs, form feeds, backslash continuations and the `{{` of f-strings did not survive even in a source without occurrences) *)
+Lemma step_text tok s cur :
+  transformed (step tok tok s cur) ++ matchbuf (step tok tok s cur) = (transformed s ++ matchbuf s) ++ t_gap cur ++ t_text cur.
+Proof.
+  unfold step.
+  destruct (negb (t_opaque cur) && nonempty (matchbuf s) && prefix_of (matchbuf s ++ t_gap cur ++ t_text cur) tok) eqn:E1.
+  - unfold finish. destruct (str_eqb (matchbuf s ++ t_gap cur ++ t_text cur) tok) eqn:E2.
+    + apply str_eqb_eq in E2. destruct (Z.eqb (fst (match_start s)) (offset_row s)); cbn [transformed matchbuf];
+        rewrite app_nil_r, <- E2, <- !app_assoc; reflexivity.
+    + cbn [transformed matchbuf]. now rewrite <- !app_assoc.
+  - destruct (negb (t_opaque cur) && prefix_of (t_text cur) tok && nonempty (t_text cur)) eqn:E3.
+    + unfold finish. destruct (str_eqb (t_text cur) tok) eqn:E2.
+      * apply str_eqb_eq in E2. destruct (Z.eqb (fst (t_row cur, t_col cur)) (offset_row s)); cbn [transformed matchbuf];
+          rewrite app_nil_r, <- E2, <- !app_assoc; reflexivity.
+      * cbn [transformed matchbuf]. now rewrite <- !app_assoc.
+    + cbn [transformed matchbuf]. now rewrite app_nil_r, <- !app_assoc.
+Qed.
+Theorem replace_self_identity tok toks : fst (replace_tokens tok tok toks) = source_of toks.
+Proof.
+  unfold replace_tokens. cbn [fst].
+  set (s0 := {| transformed := []; matchbuf := []; match_start := (-1, -1); offset_row := -1; col_offset := 0; positions := [] |}).
+  assert (G : forall l s, transformed (fold_left (step tok tok) l s) ++ matchbuf (fold_left (step tok tok) l s) =
+                          (transformed s ++ matchbuf s) ++ source_of l).
+  { induction l as [|t l IH]; intros s; cbn [fold_left source_of flat_map]; [now rewrite app_nil_r|].
+    rewrite IH, step_text. unfold source_of. now rewrite <- !app_assoc. }
+  rewrite G. reflexivity.
+Qed.
+
+(* a source in which no code token starts an occurrence comes back unchanged, for any replacement, and nothing is recorded *)
+Theorem replace_no_occurrence tok repl toks :
+  (forall t, In t toks -> t_opaque t = true \/ t_text t = [] \/ prefix_of (t_text t) tok = false) ->
+  replace_tokens tok repl toks = (source_of toks, []).
+Proof.
+  intros H. unfold replace_tokens.
+  set (s0 := {| transformed := []; matchbuf := []; match_start := (-1, -1); offset_row := -1; col_offset := 0; positions := [] |}).
+  assert (G : forall l s, (forall t, In t l -> t_opaque t = true \/ t_text t = [] \/ prefix_of (t_text t) tok = false) ->
+              matchbuf s = [] -> positions s = [] ->
+              let s' := fold_left (step tok repl) l s in
+              matchbuf s' = [] /\ positions s' = [] /\ transformed s' = transformed s ++ source_of l).
+  { induction l as [|t l IH]; intros s Hl Hm Hp; cbn [fold_left source_of flat_map]; [now rewrite app_nil_r|].
+    assert (Hs : step tok repl s t = {| transformed := (transformed s ++ t_gap t) ++ t_text t; matchbuf := []; match_start := match_start s;
+                                        offset_row := offset_row s; col_offset := col_offset s; positions := positions s |}).
+    { unfold step. rewrite Hm. cbn [nonempty app]. rewrite andb_false_r. cbn [andb].
+      destruct (Hl t (or_introl eq_refl)) as [Ho|[Ho|Ho]].
+      - rewrite Ho. cbn [negb andb]. reflexivity.
+      - rewrite Ho. cbn [nonempty]. rewrite !andb_false_r. reflexivity.
+      - rewrite Ho. rewrite andb_false_r. cbn [andb]. reflexivity. }
+    rewrite Hs.
+    set (s1 := {| transformed := (transformed s ++ t_gap t) ++ t_text t; matchbuf := []; match_start := match_start s;
+                  offset_row := offset_row s; col_offset := col_offset s; positions := positions s |}).
+    destruct (IH s1 (fun t' Ht' => Hl t' (or_intror Ht')) eq_refl Hp) as (A & B & C).
+    repeat split; auto. rewrite C. unfold s1, source_of. cbn [transformed]. now rewrite <- !app_assoc. }
+  destruct (G toks s0 H eq_refl eq_refl) as (A & B & C). rewrite A, B, C. cbn [transformed s0 app]. now rewrite app_nil_r.
+Qed.
